@@ -158,19 +158,28 @@ Theorem C06_slane_activate_clears_inactive : forall rb ina s,
 Proof. exact activate_clears_inactive. Qed.
 Print Assumptions C06_slane_activate_clears_inactive.
 
-(* 5. no stuck state with suspension: every thread inside a call can step, or waits for an enqueuer that is one step
-   from publishing its link, or for the holder of the side lock who can step; the one exception is a process that
-   has crashed on the nesting limit while holding the side lock.  dispatch_suspend / dispatch_resume / dispatch_activate
-   never wait for drainers or submitters; dispatch_async never waits *)
+(* 5. no stuck state with suspension.  Every thread inside a call can step, or waits for ONE NAMED thread that can:
+     at PW_head / PW_pop / PR_bchead for the submitter u at PA_link of an unlinked entry of the list (u's link step is
+     enabled); at PS_slock / PR_slock for the holder u of the side lock (u's step is enabled unless the process has crashed
+     on the nesting limit while holding it).  This is deadlock freedom with the waited-for thread named, not a bound
+     on waiting (no termination measure is proved for this model).
+   dispatch_suspend / dispatch_resume DO wait at exactly those points: PS_slock / PR_slock (side lock) and PR_bchead (the
+   hand-off of the resume that brought the count to zero waits, as the C code does in _dispatch_wait_for_enqueuer, for
+   the enqueuer of the head item); C06_slane_suspend_resume_enabled_outside_waits covers all their OTHER program points
+   (susp_api_pc).  dispatch_async_f has no waiting point *)
 Theorem C06_slane_no_stuck_thread : forall rb ina s t,
   0 <= rb < 2 -> reach rb ina s -> pcs s t <> Idle -> crashed_pc (pcs s t) = false ->
-  enabled rb s t \/ (exists u, u <> t /\ enabled rb s u) \/ (exists u, crashed_pc (pcs s u) = true).
-Proof. exact no_stuck_thread. Qed.
+  enabled rb s t \/
+  (link_wait_pc (pcs s t) = true /\
+   exists u e w q o, u <> t /\ In e (lst s) /\ e_linked e = false /\ pcs s u = PA_link (e_id e) w q o /\ enabled rb s u) \/
+  (side_wait_pc (pcs s t) = true /\
+   exists u, u <> t /\ sidelock s = Some u /\ (enabled rb s u \/ crashed_pc (pcs s u) = true)).
+Proof. exact no_stuck_thread_named. Qed.
 Print Assumptions C06_slane_no_stuck_thread.
-Theorem C06_slane_suspend_resume_never_block : forall rb ina s t,
+Theorem C06_slane_suspend_resume_enabled_outside_waits : forall rb ina s t,
   0 <= rb < 2 -> reach rb ina s -> susp_api_pc (pcs s t) = true -> enabled rb s t.
-Proof. exact suspend_resume_never_block. Qed.
-Print Assumptions C06_slane_suspend_resume_never_block.
+Proof. exact suspend_resume_enabled_outside_waits. Qed.
+Print Assumptions C06_slane_suspend_resume_enabled_outside_waits.
 Theorem C06_slane_async_never_blocks : forall rb ina s t,
   0 <= rb < 2 -> reach rb ina s ->
   (match pcs s t with PA_xchg _ _ | PA_link _ _ _ _ | PA_probe _ | PA_wake _ _ | PA_rootpush | PA_oprobe _ | PA_owake _ => true
